@@ -214,6 +214,11 @@ fn form_from(s: &str) -> Option<CForm> {
 
 /// Plain re-execution of a chunking (used by replay and for the recorded traces).
 fn run_chunking(x: &[u8], zp: u64, calls: &[(usize, CForm)], with_clone_and_finalize: bool) -> Result<(), String> {
+    // a panic escaping from the library through any call below is a violation of this case, not a crash
+    guard_case(|| run_chunking_unguarded(x, zp, calls, with_clone_and_finalize))
+}
+
+fn run_chunking_unguarded(x: &[u8], zp: u64, calls: &[(usize, CForm)], with_clone_and_finalize: bool) -> Result<(), String> {
     let mut g = start(zp);
     let mut r = Ctph::new(zp);
     let mut p = 0usize;
@@ -262,6 +267,11 @@ fn run_chunking(x: &[u8], zp: u64, calls: &[(usize, CForm)], with_clone_and_fina
 }
 
 fn reader_case(x: &[u8], script: &[(usize, Answer)]) -> Result<(), String> {
+    // a panic escaping from the library through any call below is a violation of this case, not a crash
+    guard_case(|| reader_case_unguarded(x, script))
+}
+
+fn reader_case_unguarded(x: &[u8], script: &[(usize, Answer)]) -> Result<(), String> {
     let mut rd = ScriptedReader::new(x, usize::MAX, script.to_vec());
     let got = guarded(|| ssdeep::hash_stream(&mut rd))?.map(|h| h.to_string()).map_err(|e| format!("hash_stream failed: {}", e))?;
     let exp = refmodel::ctph::ctph(0, x).map(|d| d.text_trunc()).map_err(|_| "ref")?;
